@@ -3,7 +3,6 @@ package sim
 import (
 	"fmt"
 	"reflect"
-	"sort"
 	"time"
 	"unsafe"
 
@@ -73,12 +72,12 @@ func snapshot(mte *pfserver.MarketToExchangePrices, buf []cellObs) []cellObs {
 			buf = append(buf, cellObs{market: mid, exchange: ex, price: pt.Price, t: pt.LastUpdateTime})
 		}
 	}
-	sort.Slice(buf, func(i, j int) bool {
-		if buf[i].market != buf[j].market {
-			return buf[i].market < buf[j].market
+	// insertion sort (at most 12 cells; sort.Slice would allocate on this hot path)
+	for i := 1; i < len(buf); i++ {
+		for j := i; j > 0 && cellLess(buf[j], buf[j-1]); j-- {
+			buf[j], buf[j-1] = buf[j-1], buf[j]
 		}
-		return buf[i].exchange < buf[j].exchange
-	})
+	}
 	return buf
 }
 
